@@ -45,17 +45,10 @@ WHAT = {
     'C18-1': ('`Number::from(f64)`: upper bound inclusive again', 'exactly 2^63'),
     'C18-2': ('`Number::from(i64)` routed through the f64 conversion', '|v| > 2^53'),
     'C02-3': ('eval_i64 `n!`: overflow test moved out of the loop (`Option` accumulator, `and_then`)', '`9223372036854775807!` loops 2^63 times; every returned value unchanged'),
-    'C02-4': ('eval_f64 `min`: a new running minimum is evaluated twice', 'nested `min(min(..),..)`: 2^depth calls, values unchanged'),
     'C03-3': ('eval_number: the literal-after-literal guard narrowed to Integer literals', '`1.2.3` (lexes as 1.2 and .3) evaluates to 0.36'),
     'C03-4': ('eval_i64 tokenizer: a lone `<` / `>` lexes as a shift (`next_if_eq`)', '`1<4` = 16'),
-    'C06-3': ('eval_i64 `^`: exponent range test off by one (`> 1 << 32`)', 'exactly `2^4294967296`: the cast to u32 wraps to 0, result 1'),
-    'C06-4': ('eval_i64 tokenizer: literals parsed as u64 and cast to i64', 'literals in 2^63..2^64-1 wrap instead of being rejected'),
-    'C09-3': ('eval_number `^` overflow fallback uses `powi(b as i32)`', 'exponents >= 2^31 wrap negative: `2^2147483648` = Integer(0)'),
-    'C09-4': ('`Number::from(f64)`: `< f64::EPSILON` instead of `== 0.0`', 'results in (0, 2^-52): `0.5^60` = Integer(0)'),
     'C10-3': ('`Number::from(f64)`: `< f64::EPSILON` instead of `== 0.0` (found independently of C09-4)', '`exp(-40)` = Integer(0)'),
     'C10-4': ('eval_i64 `exp(x)` as `E.powi(x)`', '`exp(33)`, `exp(35)`, `exp(36)` off by 1..6'),
-    'C11-3': ('eval_i64 `gcd`: stops evaluating once the running gcd is 1', '`gcd(3,2,1/0)` = 1 instead of Err'),
-    'C11-4': ('eval_f64 `med`: sorts by the bit pattern (`sort_by_key(to_bits)`)', 'a negative argument: `med(-1,2,3)` = 3'),
     'C13-3': ('eval_number wrapper: `split_ascii_whitespace`', 'U+00A0, U+2009, U+3000 ..'),
     'C13-4': ('eval_i64 prefix `+`: operand parsed at Multiplicative level', '`-+2^2` = -4 while `-2^2` = 4'),
     'C15-1': ('eval_number exact factorial range `0..20` (exclusive)', '`20!` becomes a Float while eval_i64 gives the integer'),
@@ -64,6 +57,37 @@ WHAT = {
     'C19-2': ('eval_decimal tokenizer: literals with a 29-digit mantissa rounded to 28 digits', 'printed results such as `50/7` do not read back'),
     'C20-1': ('eval_i64 `/`: shift short-cut when the divisor *node* is a power-of-two literal', '`(0-7)/@` with 2 gives -4, `(0-7)/(1+1)` gives -3'),
     'C20-2': ('eval_number wrapper passes a Float result through `Number::from`', '`(0.5*40)!` vs `@!` with Integer(20)'),
+    'C01-3': ('eval_number `med`: NaN guard written as `results.contains(&Number::Float(f64::NAN))`', 'NaN never equals NaN: the guard is dead, `med(@,1)` with a NaN placeholder panics in the sort'),
+    'C01-4': ('eval_complex parser: catch-all arm of `convert_token_to_node` returns `Ok(left_expr)`', 'a function name directly after `@`, `π` or a superscript: the climbing loop never consumes it, the call never returns'),
+    'C02-4': ('eval_decimal parser: catch-all arm of `convert_token_to_node` returns `Ok(left_expr)`', '`pisqrt(4)`, `@abs(1)`: never returns'),
+    'C03-5': ('eval_f64 `parse`: end test through a new `Tokenizer::is_exhausted()` on the character stream', 'forgets the one lookahead token: `1+2)` = 3 (two cooperating sites)'),
+    'C05-3': ('eval_f64 `^`: `base.sqrt()` when the exponent is exactly 0.5', '`(-0)^0.5` = -0.0, `(-(1/0))^0.5` = NaN'),
+    'C05-4': ('eval_f64 parser: `x / x` folded to the literal 1 when both subtrees are equal', '`0/0`, `(1/0)/(1/0)` = 1 instead of NaN'),
+    'C06-3': ('eval_i64 tokenizer: literal accumulated numerically, the final `+ digit` unchecked', '`9223372036854775808` wraps / panics instead of Err'),
+    'C06-4': ('eval_i64 `n!`: guard `n > 21` and an unchecked `(2..=n).product()`', 'exactly `21!`: wraps (release) / panics (debug)'),
+    'C07-3': ('eval_decimal unary minus via `set_sign_negative(true)`', 'a negative operand: `-(0.1-0.3)` = -0.2'),
+    'C07-4': ('eval_decimal tokenizer: point-free literals through `parse::<i64>()`', 'integer literals in 2^63 .. 2^96-1 are rejected'),
+    'C09-3': ('eval_number Integer `/`: zero test + `wrapping_rem` / `wrapping_div`', '`MIN / -1` = Integer(MIN)'),
+    'C09-4': ('`Number::from(f64)`: range test as `(MIN..=MAX).contains(..)`', 'exactly 2^63 becomes Integer(i64::MAX)'),
+    'C10-5': ('eval_f64 `x!`: branches flattened to `x % 1.0 > 0.0` first', 'negative non-integers: NaN instead of Gamma(x+1)'),
+    'C11-3': ('eval_number `min` / `max`: Integers compared through their double values', 'two Integers above 2^53 that round to the same double: the result depends on the argument order'),
+    'C13-5': ('eval_i64 prefix `+`: operand parsed at Additive level', '`12/+2*3` = 2'),
+    'C04-3': ('eval_number `^`: exponent parsed with `parse_number()`', '`2^3!` = (2^3)!'),
+    'C04-4': ('eval_i64 `get_oper_prec`: superscripts classed Functional', '`-2²` = -4, `2^3²` = 512'),
+    'C08-3': ('eval_complex `log(x, b)` as `x.log(b.re)`', 'a base with an imaginary part: `log(8,2i)`'),
+    'C08-4': ('eval_complex wrapper zeroes components below 1e-15', 'tiny exact results'),
+    'C12-3': ('eval_number implicit multiplication: right factor parsed at Power level', '`2(3)^2` = 36'),
+    'C12-4': ('eval_i64 wrapper inlines the placeholder as text `(p)`', '`2@`, `@(3)` become products instead of Err'),
+    'C14-3': ('eval_number parser: placeholder stored as `Option` and `take()`n by the first `@`', 'two `@` in one expression: `@+@`'),
+    'C14-4': ('eval_decimal wrapper passes `placeholder.normalize()`', 'a placeholder with trailing zeros loses its scale'),
+    'C15-3': ('eval_number Integer `^` Integer through `powi` / `powf` and `Number::from`', 'powers above 2^53: `3^34` off by one'),
+    'C15-4': ('eval_decimal tokenizer: `Decimal::from_str_exact`', 'literals with more than 28 fractional digits are rejected'),
+    'C17-3': ('`OperatorCategory` split into two cfg-selected definitions, the one without eval_i64 lists Negative before Power', 'the 15 feature subsets without eval_i64: `-2^2` = -4'),
+    'C17-4': ('`gamma` moved to `utils/gamma.rs`, gated on eval_f64 only', 'subsets with eval_number but without eval_f64 do not compile'),
+    'C18-3': ('eval_number `trunc`: `Number::from(n as i64)`', '|x| >= 2^63, infinities, NaN become Integers'),
+    'C19-3': ('eval_number tokenizer: pointed literals through `.into()`', '`2.0` becomes Integer(2)'),
+    'C19-4': ('eval_f64 tokenizer: fast path `digits as u64 as f64 / 10^k` for up to 16 digits', '16-digit literals above 2^53 are rounded twice'),
+    'C20-3': ('eval_f64 `^`: `sqrt` when the exponent *node* is the literal 0.5', '`x^@` with 0.5 vs `x^(1/2)` for x = -0.0, -inf'),
 }
 
 
